@@ -549,10 +549,16 @@ impl<'s> Tokenizer<'s> {
         }
         let s = self.advance(str_len + 2);
         Ok(if has_escapes {
-            (
-                Token::String(ok!(unescape(&s[1..s.len() - 1])).into_boxed_str()),
-                self.span(old_loc),
-            )
+            let span = self.span(old_loc);
+            let unescaped = match unescape(&s[1..s.len() - 1]) {
+                Ok(unescaped) => unescaped,
+                Err(mut err) => {
+                    // the error belongs to the string literal
+                    err.set_filename_and_span(self.filename, span);
+                    return Err(err);
+                }
+            };
+            (Token::String(unescaped.into_boxed_str()), span)
         } else {
             (Token::Str(&s[1..s.len() - 1]), self.span(old_loc))
         })
